@@ -83,6 +83,23 @@ def literal_spans_verbatim(d, o, out):
     return [] if a == b else [{"clause": "literal_spans_verbatim", "got": [x for x in b if x not in a][:3], "want": [x for x in a if x not in b][:3]}]
 
 
+def generated_code_verbatim(d, o, out):
+    """every top-level fenced code block the generator wrote appears in the output with exactly its lines, consecutively
+    (judged from the generator's own knowledge of what is code, not from a parser)"""
+    meta = D.META.get(d)
+    if not meta:
+        return []
+    lines = out.split("\n")
+    for code in meta["top_code"]:
+        want = [l for l in code.split("\n")]
+        while want and want[-1] == "":
+            want.pop()          # (trailing blank code lines are dropped by Marko's block model: documented normalisation)
+        k = len(want)
+        if k and not any(lines[i:i + k] == want for i in range(len(lines) - k + 1)):
+            return [{"clause": "generated_code_verbatim", "got": out[:600], "want": want[:6]}]
+    return []
+
+
 def atomic_constructs_unbroken(d, o, out):
     """no output line ends inside a construct that the input holds on one line (tags, comments, code spans, links)"""
     bad = []
